@@ -60,7 +60,10 @@ static inline void check_clauses(const Abs& pre, const Abs& post, const Ev& ev, 
     const bool     live_i   = resident && !is_exp(pre, i, now);
     // the TTL in force for a write made by this call
     const int64_t ttl_eff = (T_TTL == 1) ? ttl : pre.ttl;
-    (void)v; (void)a; (void)ttl; (void)ttl_eff; (void)live_i;
+    // a write whose TTL is 0 creates an entry that is expired the instant it is written: an implementation may keep it
+    // (unreaped) or drop it at once - no property obliges it to stay resident
+    const bool born_dead = (T_TTL != 0) && ttl_eff <= 0;
+    (void)v; (void)a; (void)ttl; (void)ttl_eff; (void)live_i; (void)born_dead;
     const int  op = ev.op;
     const bool is_insert = op == OP_INSERT, is_erase = op == OP_ERASE, is_find = (op == OP_FIND || op == OP_FIND_PLAIN);
     const bool is_clear = op == OP_CLEAR, is_clean = op == OP_CLEAN, is_age = op == OP_AGE;
@@ -92,7 +95,7 @@ static inline void check_clauses(const Abs& pre, const Abs& post, const Ev& ev, 
                 VF_P(1, 4, p != NPOS && post.v[q] == pre.v[p]); // no key appears from nowhere, no value changes unwritten
         }
     if (is_insert && r.ok)
-        VF_P(1, 5, qk != NPOS);
+        VF_P(1, 5, qk != NPOS || born_dead);
     if (is_erase && r.ok)
         VF_P(1, 6, qk == NPOS);
     if (is_clear)
@@ -125,7 +128,7 @@ static inline void check_clauses(const Abs& pre, const Abs& post, const Ev& ev, 
     {
         VF_P(3, 2, n_gone == 1);      // exactly one previously resident entry removed
         VF_P(3, 3, r.size == HCAP);   // and the cache stays full
-        VF_P(3, 4, qk != NPOS);
+        VF_P(3, 4, qk != NPOS || born_dead);
     }
     if (is_insert && r.ok && !resident && !evicting)
         for (size_t p = 0; p < AMAX; ++p)
@@ -185,9 +188,9 @@ static inline void check_clauses(const Abs& pre, const Abs& post, const Ev& ev, 
         // (update-only on an expired, unreaped entry may succeed or fail)
         if (r.ok)
         {
-            VF_P(9, 4, qk != NPOS && (!T_VALUE || post.v[qk] == v));
+            VF_P(9, 4, (qk != NPOS && (!T_VALUE || post.v[qk] == v)) || (born_dead && qk == NPOS));
 #if T_TTL != 0
-            VF_P(9, 5, qk != NPOS && post.d[qk] == now + ttl_eff);
+            VF_P(9, 5, (qk != NPOS && post.d[qk] == now + ttl_eff) || (born_dead && qk == NPOS));
 #endif
         }
         else
